@@ -70,6 +70,39 @@ CHECKS = {
                       'is linearizable to a FIFO queue incl. at-most-once delivery, no invented item and justified empty results; held on the executions observed, not on all schedules',
         'level_note': LIN_NOTE,
     },
+    'C07': {
+        'technique': 'runtime monitoring: recorded concurrent histories checked by a WGL linearizability checker against a bounded FIFO model (capacity read from capacity()); ASan/UBSan; TSan payload monitor',
+        'level_text': 'Round/segment histories (2-4 threads, prefilled to near-full/near-empty, positions wrap the ring hundreds of times) of container::VyukovMPMCCycleQueue (dynamic/static buffers, capacities 2,4,8, '
+                      'every enqueue/dequeue overload), intrusive::VyukovMPMCCycleQueue and the single-consumer VyukovMPSCCycleQueue (front(), front()+pop_front() by the only consumer) are linearizable to a FIFO of the '
+                      'reported capacity: enqueue fails only in a full state, dequeue only in the empty state; held on the executions observed',
+        'level_note': LIN_NOTE,
+    },
+    'C08': {
+        'technique': 'runtime monitoring: recorded concurrent histories checked by interval oracles (conservation ledger, quasi-FIFO bound, empty rule) that fire only when the recorded intervals force a violation',
+        'level_text': 'Round/segment histories of SegmentedQueue (HP/DHP, quasi factors 2,3->4,4,5->8,8, spin and std::mutex segment locks) with a complete sequential drain: every enqueued uid is dequeued exactly once and none is invented; '
+                      'for every dequeue fewer than quasi_factor() items whose enqueue had returned before its own enqueue began are surely still queued; an empty result is contradicted only by an item enqueued before the call and dequeued after it',
+        'level_note': LIN_NOTE,
+    },
+    'C09': {
+        'technique': 'runtime monitoring: recorded concurrent histories checked by a WGL linearizability checker against a LIFO model; elimination forced by 4-8 contending threads; ASan/UBSan; TSan payload monitor',
+        'level_text': 'Round/segment histories of container::TreiberStack (HP/DHP, elimination off / static collision buffers 1,2,4 / dynamic buffer, short and default elimination back-off) and FCStack '
+                      '(elimination on/off, std::deque/vector/list, all wait strategies) incl. empty()/clear() are linearizable to a LIFO stack with unique ids (an eliminated pair delivers the item to exactly one popper); '
+                      'collision counters must be non-zero or elimination is reported as not reached',
+        'level_note': LIN_NOTE,
+    },
+    'C10': {
+        'technique': 'runtime monitoring: recorded concurrent histories checked by a WGL linearizability checker against a sequential deque model; ASan/UBSan',
+        'level_text': 'Round/segment histories of FCDeque (elimination on/off, std::deque and boost::container::deque, compact factor 1-2, combine pass count 1-4, all wait strategies) over push/pop at both ends, '
+                      'empty() and clear(), biased to near-empty deques where the cross-end collision rule matters, are linearizable to a sequential deque',
+        'level_note': LIN_NOTE,
+    },
+    'C11': {
+        'technique': 'runtime monitoring: WGL linearizability checker against a (bounded) max-priority multiset for FCPriorityQueue and phased MSPriorityQueue programs; conservation ledger + push-fail interval rule for mixed MSPriorityQueue histories',
+        'level_text': 'FCPriorityQueue (vector/deque/stable_vector, several wait strategies): every history linearizable to a max-priority multiset (equal priorities frequent). MSPriorityQueue (capacity() 1..15, static/dynamic buffer, '
+                      'spin/std::mutex): push-only phase / barrier / pop-only phase programs linearizable to the bounded max-priority queue; free mixed histories: no item lost, duplicated or invented, '
+                      'and a push fails only if capacity items can have been present at some instant of the call',
+        'level_note': LIN_NOTE,
+    },
 }
 for e in ENGINES:
     e['serves_properties'] = sorted(CHECKS.keys())
